@@ -46,17 +46,31 @@ class IslandModel:
         # per-island loop: range(n)  or  enumerate(boxes)
         self.loop = None
         self.ivar = None
+        self.label_off = 1
         for s in walk_no_nested(f):
             if not (isinstance(s, ast.For) and isinstance(s.iter, ast.Call)):
                 continue
             fn = norm(s.iter.func)
             if fn == "range" and self.nlab in names_in(s.iter):
                 self.loop, self.ivar = s, norm(s.target)
+                a = [norm(x).replace(" ", "") for x in s.iter.args]
+                # label of the visited group = loop variable + label_off
+                if a in ([self.nlab], ["0", self.nlab]):
+                    self.label_off = 1
+                elif a in (["1", self.nlab + "+1"], ["1", "1+" + self.nlab]):
+                    self.label_off = 0
+                else:
+                    self.label_off = None
             elif fn == "enumerate" and self.boxes and s.iter.args and \
                     norm(s.iter.args[0]) == self.boxes and \
                     isinstance(s.target, ast.Tuple) and \
-                    not s.iter.keywords and len(s.iter.args) == 1:
-                self.loop, self.ivar = s, norm(s.target.elts[0])
+                    len(s.iter.args) <= 2:
+                start = s.iter.args[1] if len(s.iter.args) == 2 else \
+                    kwarg(s.iter, "start")
+                if start is None or norm(start) in ("0", "1"):
+                    self.loop, self.ivar = s, norm(s.target.elts[0])
+                    self.label_off = 1 if start is None or \
+                        norm(start) == "0" else 0
         self.domain = None
         if self.loop is None:
             # a data-dependent pre-selection of labels:  for i in <labels>
@@ -206,6 +220,12 @@ class IslandModel:
                     changed = True
         return out
 
+    def label_texts(self):
+        """the spellings of `label of the island being visited`"""
+        if self.label_off == 0:
+            return (self.ivar,)
+        return (self.ivar + "+1", "1+" + self.ivar)
+
     # ---- own-pixel restriction -------------------------------------------
     def label_compare(self, e):
         """does expression e contain  labels[...] ==/!= i+1 ?"""
@@ -215,8 +235,7 @@ class IslandModel:
                 sides = [c.left, c.comparators[0]]
                 txt = [norm(x) for x in sides]
                 has_lab = any(self.lab_names & names_in(x) for x in sides)
-                has_id = any(t.replace(" ", "") in (self.ivar + "+1",
-                                                    "1+" + self.ivar)
+                has_id = any(t.replace(" ", "") in self.label_texts()
                              for t in txt)
                 if has_lab and has_id:
                     return True
@@ -281,7 +300,7 @@ class IslandModel:
             sides = [c.left, c.comparators[0]]
             txt = [norm(x).replace(" ", "") for x in sides]
             return any(self.lab_names & names_in(x) for x in sides) and \
-                any(t in (self.ivar + "+1", "1+" + self.ivar) for t in txt)
+                any(t in self.label_texts() for t in txt)
         return False
 
     def narrowing(self, e, depth=0):
